@@ -8,6 +8,20 @@ import sys
 items = json.load(sys.stdin)
 checked, mismatch = 0, []
 for it in items:
+    if it.get("kind") == "file":
+        # whole-module effect contracts: the file analysed is the file CPython imports
+        try:
+            m = importlib.import_module(it["module"])
+            import os
+            same = os.path.realpath(m.__file__) == os.path.realpath(it["file"])
+            sha = hashlib.sha256(open(m.__file__, "rb").read()).hexdigest()[:16]
+            if same and sha == it["sha256"]:
+                checked += 1
+            else:
+                mismatch.append(f"{it['module']}: imported {m.__file__} sha {sha} != analysed {it['file']} {it['sha256']}")
+        except Exception as e:  # noqa: BLE001
+            mismatch.append(f"{it['module']}: {e!r}")
+        continue
     fqn = it["function"]
     kind = it.get("kind") or ("setter" if fqn.endswith("#setter") else "function")
     fqn = fqn.split("#")[0]
